@@ -10,6 +10,7 @@ import (
 	"context"
 	"encoding/json"
 	"fmt"
+	"os"
 	"sort"
 	"strings"
 
@@ -22,14 +23,19 @@ import (
 	cid "github.com/ipfs/go-cid"
 )
 
-var blks []blocks.Block // 0=a 1=b 2=c
+var blks []blocks.Block // 0=a 1=b 2=c 3=A (same multihash as a under another codec: a different CID)
 
-const names = "abcdef"
+const names = "abcA"
 
 func init() {
 	for _, s := range []string{"a", "b", "c"} {
 		blks = append(blks, blocks.NewBlock([]byte("verif-c37-block-"+s)))
 	}
+	alias, err := blocks.NewBlockWithCid(blks[0].RawData(), cid.NewCidV1(cid.DagProtobuf, blks[0].Cid().Hash()))
+	if err != nil {
+		panic(err)
+	}
+	blks = append(blks, alias)
 }
 
 func idx(c cid.Cid) int {
@@ -81,6 +87,8 @@ type script struct {
 	reqs       []reqSpec
 	pubs       [][][]int // per publisher thread: its Publish calls in order, each a block list
 	cancel     int       // racing canceller: noCancel | request index (its ctx) | sessCancel (the shared session ctx)
+	cancelWait int       // the canceller first waits until this many blocks were delivered to request 0 (0 = races from the start)
+	pubFirst   bool      // publisher threads are created (numbered) before the requesters: another base schedule
 	shutdown   bool      // a thread calls PubSub.Shutdown at any point
 	trace      bool      // notifications.New(traceBlock)
 	degenerate bool      // empty key list / undefined cid (sequential)
@@ -153,6 +161,27 @@ func (x *exec) Main() {
 		})
 		return
 	}
+	delivered := vsched.Reg(make(chan struct{}, 8))
+	startPubs := func() {
+		for p := range sc.pubs {
+			p := p
+			calls := sc.pubs[p]
+			vsched.GoNamed(fmt.Sprintf("pub%d", p), true, func() {
+				for _, call := range calls {
+					bs := make([]blocks.Block, 0, len(call))
+					for _, k := range call {
+						bs = append(bs, blks[k])
+					}
+					x.rec("pub-start", p, call, nil)
+					ps.Publish("", bs...)
+					x.rec("pub-ret", p, call, nil)
+				}
+			})
+		}
+	}
+	if sc.pubFirst {
+		startPubs()
+	}
 	for i := range sc.reqs {
 		i := i
 		rq := sc.reqs[i]
@@ -192,27 +221,22 @@ func (x *exec) Main() {
 					break
 				}
 				x.rec("deliver", i, []int{idx(b.Cid())}, nil)
+				if i == 0 && sc.cancelWait > 0 {
+					vsched.Send((chan<- struct{})(delivered), struct{}{})
+				}
 			}
 			x.rec("closed", i, nil, nil)
 		})
 	}
-	for p := range sc.pubs {
-		p := p
-		calls := sc.pubs[p]
-		vsched.GoNamed(fmt.Sprintf("pub%d", p), true, func() {
-			for _, call := range calls {
-				bs := make([]blocks.Block, 0, len(call))
-				for _, k := range call {
-					bs = append(bs, blks[k])
-				}
-				x.rec("pub-start", p, call, nil)
-				ps.Publish("", bs...)
-				x.rec("pub-ret", p, call, nil)
-			}
-		})
+	if !sc.pubFirst {
+		startPubs()
 	}
 	if sc.cancel != noCancel {
-		vsched.GoNamed("canceller", true, func() {
+		// with cancelWait the canceller may wait forever (fewer deliveries than awaited): then it is not a driver
+		vsched.GoNamed("canceller", sc.cancelWait == 0, func() {
+			for n := 0; n < sc.cancelWait; n++ {
+				vsched.Recv((<-chan struct{})(delivered))
+			}
 			x.rec("cancel-start", sc.cancel, nil, nil)
 			if sc.cancel == sessCancel {
 				sesscancel()
@@ -360,6 +384,12 @@ func has(xs []int, k int) bool {
 
 func (x *exec) Check(res *vsched.Result) *eng.Violation {
 	sc := x.sc
+	if d := os.Getenv("C37_DUMP"); d != "" { // debugging aid: histogram of outcomes per scenario
+		if f, err := os.OpenFile(fmt.Sprintf("%s/%d.txt", d, os.Getpid()), os.O_APPEND|os.O_CREATE|os.O_WRONLY, 0o644); err == nil {
+			fmt.Fprintf(f, "%s\t%s\n", sc.name, x.Outcome())
+			f.Close()
+		}
+	}
 	rs, pubs, pos := x.summarize()
 	logStr := x.logString()
 	if sc.degenerate {
@@ -379,7 +409,7 @@ func (x *exec) Check(res *vsched.Result) *eng.Violation {
 		if len(r.spec.keys) != len(r.R) {
 			dup = "true"
 		}
-		racing := sc.cancel == i || sc.cancel == sessCancel
+		racing := (sc.cancel == i || sc.cancel == sessCancel) && pos["cancel-start"] >= 0
 		feats := []string{"dup_keys", dup, "sync", fmt.Sprint(r.spec.sync), "racing_cancel", fmt.Sprint(racing), "shutdown", fmt.Sprint(sc.shutdown)}
 		op := "AsyncGetBlocks"
 		if r.spec.sync {
@@ -533,21 +563,37 @@ const (
 	a = 0
 	b = 1
 	c = 2
+	A = 3 // same multihash as a, other codec
 )
 
 func scripts() []*script {
+	one := func(ks ...int) []reqSpec { return []reqSpec{{keys: ks}} }
+	syn := func(k int) []reqSpec { return []reqSpec{{keys: []int{k}, sync: true}} }
+	type P = [][][]int
 	return []*script{
 		{name: "degenerate", degenerate: true},
-		{name: "a_pubA", reqs: []reqSpec{{keys: []int{a}}}, pubs: [][][]int{{{a}}}, cancel: noCancel},
-		{name: "aa_pubA_pubA", reqs: []reqSpec{{keys: []int{a, a}}}, pubs: [][][]int{{{a}}, {{a}}}, cancel: noCancel},
-		{name: "ab_pubA_pubAB", reqs: []reqSpec{{keys: []int{a, b}}}, pubs: [][][]int{{{a}}, {{a, b}}}, cancel: noCancel},
-		{name: "ab_pubCB_pubA", reqs: []reqSpec{{keys: []int{a, b}}}, pubs: [][][]int{{{c}, {b}}, {{a}}}, cancel: noCancel},
-		{name: "ab_pubAB_cancel", reqs: []reqSpec{{keys: []int{a, b}}}, pubs: [][][]int{{{a, b}}}, cancel: 0},
-		{name: "a_pubA_sesscancel", reqs: []reqSpec{{keys: []int{a}}}, pubs: [][][]int{{{a}}}, cancel: sessCancel},
-		{name: "ab_pubAB_shutdown", reqs: []reqSpec{{keys: []int{a, b}}}, pubs: [][][]int{{{a, b}}}, cancel: noCancel, shutdown: true},
-		{name: "sync_a_pubC_A", reqs: []reqSpec{{keys: []int{a}, sync: true}}, pubs: [][][]int{{{c}, {a}}}, cancel: noCancel},
-		{name: "sync_a_pubA_cancel", reqs: []reqSpec{{keys: []int{a}, sync: true}}, pubs: [][][]int{{{a}}}, cancel: 0},
-		{name: "ab_pubA_pubAB_trace", reqs: []reqSpec{{keys: []int{a, b}}}, pubs: [][][]int{{{a}}, {{a, b}}}, cancel: noCancel, trace: true},
+		// one request, no cancellation race: delivery, at-most-once, nothing unrequested, closure, clean-up
+		{name: "a_pubA", reqs: one(a), pubs: P{{{a}}}, cancel: noCancel},
+		{name: "pubA_a", reqs: one(a), pubs: P{{{a}}}, cancel: noCancel, pubFirst: true},
+		{name: "aa_pubA_pubA", reqs: one(a, a), pubs: P{{{a}}, {{a}}}, cancel: noCancel},
+		{name: "ab_pubA_pubAB", reqs: one(a, b), pubs: P{{{a}}, {{a, b}}}, cancel: noCancel},
+		{name: "ab_pubCB_pubA", reqs: one(a, b), pubs: P{{{c}, {b}}, {{a}}}, cancel: noCancel},
+		{name: "a_pubAlias_A", reqs: one(a), pubs: P{{{A}, {a}}}, cancel: noCancel},
+		{name: "ab_pubA_pubAB_trace", reqs: one(a, b), pubs: P{{{a}}, {{a, b}}}, cancel: noCancel, trace: true},
+		// cancellation at any point (request context, session context)
+		{name: "ab_pubAB_cancel", reqs: one(a, b), pubs: P{{{a, b}}}, cancel: 0},
+		{name: "ab_pubA_pubB_cancel1", reqs: one(a, b), pubs: P{{{a}}, {{b}}}, cancel: 0, cancelWait: 1},
+		{name: "a_pubA_sesscancel", reqs: one(a), pubs: P{{{a}}}, cancel: sessCancel},
+		// Shutdown of the PubSub at any point
+		{name: "ab_pubAB_shutdown", reqs: one(a, b), pubs: P{{{a, b}}}, cancel: noCancel, shutdown: true},
+		// SyncGetBlock
+		{name: "sync_a_pubC_A", reqs: syn(a), pubs: P{{{c}, {a}}}, cancel: noCancel},
+		{name: "sync_a_pubA_cancel", reqs: syn(a), pubs: P{{{a}}}, cancel: 0},
+		{name: "sync_a_pubA_shutdown", reqs: syn(a), pubs: P{{{a}}}, cancel: noCancel, shutdown: true},
+		// two overlapping requests sharing a key
+		{name: "two_a_ab_pubAB", reqs: []reqSpec{{keys: []int{a}}, {keys: []int{a, b}}}, pubs: P{{{a, b}}}, cancel: noCancel},
+		{name: "two_ab_a_pubA_pubB", reqs: []reqSpec{{keys: []int{a, b}}, {keys: []int{a}}}, pubs: P{{{a}}, {{b}}}, cancel: noCancel, delta: -1},
+		{name: "two_a_a_pubA_cancel0", reqs: []reqSpec{{keys: []int{a}}, {keys: []int{a}}}, pubs: P{{{a}}}, cancel: 0},
 	}
 }
 
